@@ -20,22 +20,25 @@ PROPERTY = "C13"
 EXPLANATION = (
     "Equality of results across process histories is behaviour and is NOT decided.  Decided: that no *carrier* of history exists "
     "besides the listed findings.  R1 re-derives the inventory of process-global mutable state from the source model (module- and "
-    "class-level bindings of dict/list/set values, class attributes stored through the class object, mutable default arguments, "
-    "sys.modules/sys.path writes, exec(..., globals()) namespace writes), finds every mutation of each by a whole-repo use analysis "
-    "(subscript store / augmented store / del / mutator call / mutation through a callee's parameter / mutation of a value reached "
-    "through the container) and classifies it: constant table (never mutated after import), content-keyed cache (only `c[k] = v` "
-    "stores next to a keyed read; R2 decides the key), per-compilation state (a clear()/re-binding is reachable over the resolved "
-    "call graph from the documented reset CircuitTemplate.clear), registry (its mutators are unreachable from every compile entry). "
-    "The inventory is pinned in TABLE; a global container that is mutated, is not a pure cache and that no reset reaches is a "
-    "violation naming it.  R2: for every keyed cache (pinned caches, any unpinned pure cache, and `import <name>` of a module file the "
-    "same function wrote) every access-path root of the backward def-use slice of the stored value must be covered by a root of the "
-    "key's slice.  R3: from CircuitTemplate.apply / run / get_run_func / get_jacobian_func, on every CFG path (interprocedurally, "
-    "callee by callee) the first state-observing use of a per-compilation container is preceded by a statement that resets it on "
-    "all of its own paths.  R4: a value reached through a shallow copy of a dict-of-dicts registry (`*_funcs.copy()` stored in "
-    "`self._funcs`) is never written unless it was copied first; the flow is followed through locals, parameters, attributes and "
-    "return values.  NOT decided: equality of results; control dependence of cached values (only data flow is sliced); state held "
-    "by instances (ComputeGraph._state_var_hist etc.: discarded with the object); aliasing of a cached template object handed to "
-    "the user (C14); files on disk; the namespace writes of exec(..., globals()) (listed, see triage/probes/p16.py)."
+    "class-level bindings of dict/list/set values, class attributes stored through the class object, names re-bound through a "
+    "`global` statement, mutable default arguments, sys.modules/sys.path writes, exec(..., globals()) namespace writes), finds every "
+    "mutation of each by a whole-repo use analysis (subscript store / augmented store / del / mutator call / mutation through a "
+    "local or `self.<attr>` alias / through a callee's parameter / of a value read from the container) and classifies it: constant "
+    "table (never mutated after import), content-keyed cache (only `c[k] = v` stores next to a keyed read, cached values not "
+    "modified afterwards; R2 decides the key), per-compilation state (a clear()/re-binding is reachable over the resolved call graph "
+    "from the documented reset CircuitTemplate.clear), registry / registration-time state (no mutator is reachable from a compile "
+    "entry).  The inventory is pinned in TABLE; a global container that is mutated on a path from a compile entry, is not a pure "
+    "cache and that no reset reaches is a violation naming it.  R2: for every keyed cache (pinned caches, any unpinned pure cache, "
+    "and `import <computed name>` of a module file the same function wrote) every access-path root of the backward def-use slice "
+    "of the stored value must be covered by a root of the key's slice.  R3: from CircuitTemplate.apply / run / get_run_func / "
+    "get_jacobian_func, on every CFG path (interprocedurally, callee by callee) the first state-observing use of a per-compilation "
+    "container is preceded by a statement that resets it on all of its own paths.  R4: a value reached through a shallow copy of a "
+    "dict-of-dicts registry (`*_funcs.copy()` stored in `self._funcs`) is never written unless it was copied first; the flow is "
+    "followed through locals, parameters, `self.<attr>` and return values.  NOT decided: equality of results; injectivity of a key "
+    "(a key that is a lossy function of the right inputs passes R2); control dependence of cached values (only data flow is "
+    "sliced; a method call counts as depending on its whole receiver); state held by instances (ComputeGraph._state_var_hist etc., "
+    "listed as information: discarded with the object); aliasing of a cached template object handed to the user (C14); files on "
+    "disk; the namespace writes of exec(..., globals()) (listed, see triage/probes/p16.py); the Matlab/Julia engines' own caches."
 )
 RULE_TEXT = ("instances = every discovered global container (R1), every keyed cache function (R2), every (per-compilation container, "
              "compile entry) pair (R3), every function that receives a value through the shallow registry copy (R4); non-trivial = "
@@ -48,6 +51,11 @@ ASSUMPTIONS = [
     "semantics).",
     "`import name` / `from name import ...` returns sys.modules[name] when present (Python import semantics), i.e. it is a cache "
     "keyed by the module name.",
+    "If any method of a class family binds `self.a = ...`, then `self.a` denotes the instance attribute everywhere in that family "
+    "(a class-level container of the same name is then only reached through the class object).",
+    "Callables passed as data and call sites the engine cannot resolve add no edges to the call graph (engine assumption); the "
+    "closure from CircuitTemplate.clear additionally resolves `x.clear()` when the class of x follows from constructor calls, "
+    "`self.<attr>` assignments or return values.",
 ]
 
 CIRCUIT_T = "pyrates/frontend/template/circuit.py"
@@ -59,8 +67,11 @@ R3_ENTRIES = [(CIRCUIT_T, "CircuitTemplate.apply"), (CIRCUIT_T, "CircuitTemplate
 PUBLIC_ENTRIES = R3_ENTRIES + [
     (CIRCUIT_T, "CircuitTemplate.__init__"), (CIRCUIT_T, "CircuitTemplate.update_var"), (CIRCUIT_T, "CircuitTemplate.update_template"),
     (CIRCUIT_T, "CircuitTemplate.clear"), ("pyrates/frontend/template/__init__.py", "from_yaml"),
-    ("pyrates/frontend/template/operator.py", "OperatorTemplate.__init__"), ("pyrates/utility.py", "clear"),
-    ("pyrates/utility.py", "clear_frontend_caches"),
+    ("pyrates/frontend/template/operator.py", "OperatorTemplate.__init__"), ("pyrates/frontend/template/operator.py", "OperatorTemplate.update_template"),
+    ("pyrates/frontend/template/operator_graph.py", "OperatorGraphTemplate.__init__"),
+    ("pyrates/frontend/template/operator_graph.py", "OperatorGraphTemplate.update_template"),
+    ("pyrates/frontend/template/abc.py", "AbstractBaseTemplate.from_yaml"),
+    ("pyrates/utility.py", "clear"), ("pyrates/utility.py", "clear_frontend_caches"),
 ]
 
 MUTATORS = {"append", "extend", "update", "pop", "popitem", "clear", "insert", "remove", "setdefault", "add", "discard", "sort",
@@ -205,6 +216,7 @@ class Model:
         self._self_bound: Dict[ClassInfo, Set[str]] = {}
         self._shadow_cache: Dict[Tuple[ClassInfo, str], bool] = {}
         self._class_attr_names: Set[str] = set()
+        self._globals_declared: Set[Tuple[str, str]] = set()
         self.unresolved_attr_refs: List[str] = []
         self._enumerate()
         self._collect_refs()
@@ -246,6 +258,16 @@ class Model:
                 v = at[1] if at else None
                 self._add(Container(f"{owner.module.rel}::{owner.name}.{n.attr}", "class", owner.module, n.attr, cls=owner,
                                     value=v, stmt=parent(v) if v is not None else owner.node, mutable_value=_is_mutable_value(v)))
+        # module-level names of any value that a function re-binds through a `global` statement
+        for f in repo.functions.values():
+            for n in walk_shallow(f.node):
+                if isinstance(n, ast.Global):
+                    for name in n.names:
+                        self._globals_declared.add((f.module.name, name))
+                        sts = f.module.assigns.get(name) or []
+                        v = getattr(sts[-1], "value", None) if sts else None
+                        self._add(Container(f"{f.module.rel}::{name}", "module", f.module, name, value=v,
+                                            stmt=sts[-1] if sts else f.module.tree, mutable_value=_is_mutable_value(v)))
         # mutable default arguments
         for f in repo.functions.values():
             a = f.node.args
@@ -354,7 +376,7 @@ class Model:
             return self._glob_cache[k]
         res = None
         if depth <= 8:
-            if name in m.assigns and name not in m.classes and name not in m.functions:
+            if (name in m.assigns or (m.name, name) in self._globals_declared) and name not in m.classes and name not in m.functions:
                 res = (m, name)
             elif name in m.imports:
                 src, sym = m.imports[name]
@@ -879,6 +901,16 @@ class Model:
                 if init is not None and init not in outs:
                     outs.append(init)
             return (outs, "local-class") if outs else (targets, how)
+        if how == "by-name" and isinstance(call.func, ast.Attribute) and self._is_self(f, call.func.value):
+            # `self.target_ir(...)` where target_ir is a class-level binding of a class / function, not a method
+            at = self.repo.lookup_attr(f.cls, call.func.attr)
+            if at is not None and isinstance(at[1], (ast.Name, ast.Attribute)):
+                r = self.repo.resolve_expr(at[0].module, at[1])
+                if isinstance(r, ClassInfo):
+                    init = self.repo.lookup_method(r, "__init__")
+                    return ([init] if init else []), "class-attr"
+                if isinstance(r, FunctionInfo):
+                    return [r], "class-attr"
         if targets or how != "external" or not isinstance(call.func, ast.Attribute) or call.func.attr not in BUILTIN_METHODS:
             return targets, how
         if self.repo.external_name(f.module, call.func) is not None:
@@ -896,8 +928,8 @@ class Model:
 
     def ext_calls(self, f: FunctionInfo):
         if f not in self._ext:
-            self._ext[f] = [(c, *self.ext_resolve(f, c)) if (not ts and how in ("external", "unresolved-name")) else (c, ts, how)
-                            for c, ts, how in self.cg.calls.get(f, [])]
+            self._ext[f] = [(c, *self.ext_resolve(f, c)) if ((not ts and how in ("external", "unresolved-name")) or how == "by-name")
+                            else (c, ts, how) for c, ts, how in self.cg.calls.get(f, [])]
         return self._ext[f]
 
     def ext_callees(self, f: FunctionInfo) -> List[FunctionInfo]:
@@ -1085,7 +1117,11 @@ def r1_inventory(ctx, rid):
                    f"the key determines the value" + ("" if fx.pin else " (not pinned: new cache)"), facts, **kw)
             continue
         # mutable state
-        if fx.reset_reachable:
+        mutators_reached = [e for e in fx.muts if e.f in reach_public]
+        if not fx.reset_reachable and not mutators_reached:
+            ctx.ok(rid, None, None, f"{key}: mutated only by {', '.join(sorted({e.f.qualname for e in fx.muts}))}, which no compile entry "
+                   f"reaches (registration-time state, not pinned): it cannot carry anything from one compilation to the next", facts, **kw)
+        elif fx.reset_reachable:
             ctx.ok(rid, None, None, f"{key}: per-compilation state; reset by {', '.join(sorted({e.f.qualname for e in fx.reset_reachable}))}"
                    f", reachable from CircuitTemplate.clear" + ("" if fx.pin else " (not pinned: new container)"), facts, **kw)
         else:
@@ -1101,6 +1137,27 @@ def r1_inventory(ctx, rid):
     if md.unresolved_attr_refs:
         ctx.notes.append(f"{rid}: attribute references with the name of a class-level container whose receiver could not be resolved: "
                          f"{md.unresolved_attr_refs[:10]}")
+    # instance-level containers that a reachable clear() leaves untouched (information: the object is discarded)
+    for g in sorted(_reach_clear(ctx), key=lambda g: g.qual):
+        if g.name != "clear" or g.cls is None:
+            continue
+        init = g.cls.methods.get("__init__")
+        if init is None or init.self_name is None:
+            continue
+        made = {}
+        for n in walk_shallow(init.node):
+            if isinstance(n, ast.Assign) and _is_mutable_value(n.value):
+                for t in n.targets:
+                    if isinstance(t, ast.Attribute) and isinstance(t.value, ast.Name) and t.value.id == init.self_name:
+                        made[t.attr] = n
+        touched = set()
+        for n in walk_shallow(g.node):
+            if isinstance(n, ast.Attribute) and isinstance(n.value, ast.Name) and n.value.id == g.self_name:
+                touched.add(n.attr)
+        left = sorted(set(made) - touched)
+        if left:
+            ctx.info(rid, g, g.node, f"{g.qualname} does not touch the instance containers {left} (instance state lives and dies with "
+                     f"the object; listed, not armed)", label="instance containers not cleared")
     # what the other documented resets reach (evidence only)
     for rel, qn in (("pyrates/utility.py", "clear"), ("pyrates/utility.py", "clear_frontend_caches")):
         g = repo.find_func(rel, qn)
@@ -1821,9 +1878,11 @@ def r4_registry_copies(ctx, rid):
     bad_funcs = set()
     for f, st, how, origin in fl.violations:
         bad_funcs.add(f)
-        ctx.violation(rid, f, st, f"`{norm(st)}` writes ({how}) into an entry of the module-level registry {origin} that {f.qualname} "
-                      f"received through a shallow copy (the inner dict is the registry's own object): the change persists for every "
-                      f"backend created later in the process", {"registry": origin, "how": how})
+        ctx.violation(rid, f, st, f"`{norm(st)}` writes ({how}) into an entry of a module-level function registry that {f.qualname} "
+                      f"received through a shallow copy (`<registry>.copy()` copies the outer dict only; the inner dict is the registry's "
+                      f"own object): the change persists for every backend created later in the process",
+                      {"registries_shallow_copied": sorted(c.key for c in regs), "how": how,
+                       "attributes_holding_shallow_copies": sorted({f"{k.name}.{a}" for (k, a) in fl.attr_taint})})
     for f, sm in sorted(fl.entry_funcs.items(), key=lambda kv: kv[0].qual):
         if f in bad_funcs:
             continue
